@@ -19,14 +19,14 @@ import (
 // a view is (offset, len, bytes...) or (-1, 0) when empty/nil; -1 ends the run at a panic;
 // after the last call -2 and Input.Bytes().
 
-var htmlDelims = [][2]string{html.GoTemplate, html.HandlebarsTemplate, html.MustacheTemplate, html.EJSTemplate, html.ASPTemplate, html.PHPTemplate}
+var c09Delims = [][2]string{html.GoTemplate, html.HandlebarsTemplate, html.MustacheTemplate, html.EJSTemplate, html.ASPTemplate, html.PHPTemplate}
 
-func htmlCaseDelims(a []int64) (k int64, n int64, d []byte, tmpl *[2]string) {
+func c09CaseDelims(a []int64) (k int64, n int64, d []byte, tmpl *[2]string) {
 	k, n = a[0], a[1]
 	dv, rest := takeList(a[2:])
 	d = toBytes(dv)
 	if k >= 1 && k <= 6 {
-		t := htmlDelims[k-1]
+		t := c09Delims[k-1]
 		tmpl = &t
 	} else if k == 7 {
 		bv, rest2 := takeList(rest)
@@ -37,7 +37,7 @@ func htmlCaseDelims(a []int64) (k int64, n int64, d []byte, tmpl *[2]string) {
 	return
 }
 
-func htmlNewLexer(d []byte, tmpl *[2]string) (*parse.Input, *html.Lexer) {
+func c09NewLexer(d []byte, tmpl *[2]string) (*parse.Input, *html.Lexer) {
 	in := parse.NewInputBytes(append(make([]byte, 0, len(d)), d...))
 	if tmpl != nil {
 		return in, html.NewTemplateLexer(in, *tmpl)
@@ -45,7 +45,7 @@ func htmlNewLexer(d []byte, tmpl *[2]string) (*parse.Input, *html.Lexer) {
 	return in, html.NewLexer(in)
 }
 
-func htmlErrKind(e error) int64 {
+func c09ErrKind(e error) int64 {
 	if e == nil {
 		return 0
 	}
@@ -55,8 +55,8 @@ func htmlErrKind(e error) int64 {
 	return 2
 }
 
-// viewObs encodes a slice as (offset in the input buffer, len, bytes); offset by pointer identity.
-func viewObs(base []byte, s []byte) []int64 {
+// c09ViewObs encodes a slice as (offset in the input buffer, len, bytes); offset by pointer identity.
+func c09ViewObs(base []byte, s []byte) []int64 {
 	if len(s) == 0 {
 		return []int64{-1, 0}
 	}
@@ -74,9 +74,9 @@ func viewObs(base []byte, s []byte) []int64 {
 	return out
 }
 
-func htmlImpl(c Case) []int64 {
-	_, n, d, tmpl := htmlCaseDelims(c.Args)
-	in, l := htmlNewLexer(d, tmpl)
+func c09Impl(c Case) []int64 {
+	_, n, d, tmpl := c09CaseDelims(c.Args)
+	in, l := c09NewLexer(d, tmpl)
 	base := in.Bytes()
 	var out []int64
 	for i := int64(0); i < n; i++ {
@@ -84,14 +84,14 @@ func htmlImpl(c Case) []int64 {
 		p := catch(func() {
 			tt, data := l.Next()
 			obs = append(obs, int64(tt))
-			obs = append(obs, viewObs(base, data)...)
-			obs = append(obs, viewObs(base, l.Text())...)
-			obs = append(obs, viewObs(base, l.AttrVal())...)
+			obs = append(obs, c09ViewObs(base, data)...)
+			obs = append(obs, c09ViewObs(base, l.Text())...)
+			obs = append(obs, c09ViewObs(base, l.AttrVal())...)
 			h := int64(0)
 			if l.HasTemplate() {
 				h = 1
 			}
-			obs = append(obs, h, int64(in.Offset()), htmlErrKind(l.Err()))
+			obs = append(obs, h, int64(in.Offset()), c09ErrKind(l.Err()))
 		})
 		if p != nil {
 			return append(out, -1)
@@ -105,7 +105,7 @@ func htmlImpl(c Case) []int64 {
 	return out
 }
 
-func htmlCase(k int, d []byte, extra int, note string) Case {
+func c09Case(k int, d []byte, extra int, note string) Case {
 	args := []int64{int64(k), int64(len(d) + extra)}
 	args = append(args, bytesToArgs(d)...)
 	if note == "" {
@@ -114,7 +114,7 @@ func htmlCase(k int, d []byte, extra int, note string) Case {
 	return Case{Fn: "html", Args: args, Note: note}
 }
 
-func htmlCaseCustom(b, e, d []byte, extra int) Case {
+func c09CaseCustom(b, e, d []byte, extra int) Case {
 	args := []int64{7, int64(len(d) + extra)}
 	args = append(args, bytesToArgs(d)...)
 	args = append(args, bytesToArgs(b)...)
@@ -124,8 +124,8 @@ func htmlCaseCustom(b, e, d []byte, extra int) Case {
 
 // ---- document generator (shared by the correspondence run and the oracle) ------------------------
 
-// expTok is what the property text promises for one construct.
-type expTok struct {
+// c09ExpTok is what the property text promises for one construct.
+type c09ExpTok struct {
 	ty     html.TokenType
 	data   []byte // nil: not checked
 	text   []byte // nil: not checked
@@ -135,18 +135,18 @@ type expTok struct {
 	key    string // violation key to use when this expectation fails (default: by kind and ctx)
 }
 
-// region is a delimited template region [p,q) of the document and the context it was put in.
-type region struct {
+// c09Region is a delimited template region [p,q) of the document and the context it was put in.
+type c09Region struct {
 	p, q int
 	ctx  string
 }
 
-type docGen struct {
+type c09DocGen struct {
 	r              *Rng
 	tb, te         string // "" = no templates
 	buf            []byte
-	exp            []expTok
-	regs           []region
+	exp            []c09ExpTok
+	regs           []c09Region
 	exact          bool            // exp describes the whole document exactly (no construct whose outcome the property leaves open)
 	lastTx         bool            // last construct was text (adjacent text constructs merge)
 	tmplP          int             // probability (percent) of inserting a region where one is allowed
@@ -154,10 +154,10 @@ type docGen struct {
 	quoteInForeign bool            // svg/math content may contain a lone double quote (oracle only)
 }
 
-var rawNames = []string{"script", "style", "title", "textarea", "xmp", "iframe"}
-var plainNames = []string{"a", "p", "div", "b", "img", "br", "h1", "span", "x-y", "table", "scrip", "scripts", "styl", "svgx", "mat", "xm", "input", "textare", "tt"}
+var c09RawNames = []string{"script", "style", "title", "textarea", "xmp", "iframe"}
+var c09PlainNames = []string{"a", "p", "div", "b", "img", "br", "h1", "span", "x-y", "table", "scrip", "scripts", "styl", "svgx", "mat", "xm", "input", "textare", "tt"}
 
-func (g *docGen) caseVar(s string) string {
+func (g *c09DocGen) caseVar(s string) string {
 	b := []byte(s)
 	mode := g.r.Intn(4)
 	for i, c := range b {
@@ -170,7 +170,7 @@ func (g *docGen) caseVar(s string) string {
 	return string(b)
 }
 
-func lowerASCII(b []byte) []byte {
+func c09LowerASCII(b []byte) []byte {
 	o := append([]byte{}, b...)
 	for i, c := range o {
 		if c >= 'A' && c <= 'Z' {
@@ -180,7 +180,7 @@ func lowerASCII(b []byte) []byte {
 	return o
 }
 
-func (g *docGen) ws(min int) string {
+func (g *c09DocGen) ws(min int) string {
 	n := min + g.r.Intn(2)
 	if g.r.Chance(1, 8) {
 		n += g.r.Intn(3)
@@ -194,7 +194,7 @@ func (g *docGen) ws(min int) string {
 
 // tmplBody: region body that does not contain te outside quoted strings; hazards are strings that would
 // end the surrounding construct if the region were not skipped.
-func (g *docGen) tmplBody(hazards []string) string {
+func (g *c09DocGen) tmplBody(hazards []string) string {
 	var sb strings.Builder
 	n := g.r.Intn(4)
 	for i := 0; i < n; i++ {
@@ -237,14 +237,14 @@ func (g *docGen) tmplBody(hazards []string) string {
 	}
 	s := sb.String()
 	// the body must end outside a quoted string and must not contain te outside strings
-	if tmplEndStrict(s+g.te, g.te) != len(s)+len(g.te) {
+	if c09TmplEndStrict(s+g.te, g.te) != len(s)+len(g.te) {
 		return "x"
 	}
 	return s
 }
 
-// tmplEndStrict is tmplEnd, but -1 when a quoted string is not terminated.
-func tmplEndStrict(s, te string) int {
+// c09TmplEndStrict is c09TmplEnd, but -1 when a quoted string is not terminated.
+func c09TmplEndStrict(s, te string) int {
 	i := 0
 	for i < len(s) {
 		if strings.HasPrefix(s[i:], te) {
@@ -276,9 +276,9 @@ func tmplEndStrict(s, te string) int {
 	return -1
 }
 
-// tmplEnd returns the length of the region body+te at the start of s: first te outside quoted strings
+// c09TmplEnd returns the length of the region body+te at the start of s: first te outside quoted strings
 // (backslash escapes inside strings), written from the description of template regions.
-func tmplEnd(s, te string) int {
+func c09TmplEnd(s, te string) int {
 	i := 0
 	for i < len(s) {
 		if strings.HasPrefix(s[i:], te) {
@@ -306,7 +306,7 @@ func tmplEnd(s, te string) int {
 }
 
 // maybeRegion appends a region in context ctx with probability tmplP.
-func (g *docGen) maybeRegion(ctx string, hazards []string) bool {
+func (g *c09DocGen) maybeRegion(ctx string, hazards []string) bool {
 	if g.tb == "" || (g.allow != nil && !g.allow[ctx]) || !g.r.Chance(g.tmplP, 100) {
 		return false
 	}
@@ -314,24 +314,24 @@ func (g *docGen) maybeRegion(ctx string, hazards []string) bool {
 	return true
 }
 
-func (g *docGen) region(ctx string, hazards []string) {
+func (g *c09DocGen) region(ctx string, hazards []string) {
 	p := len(g.buf)
 	g.buf = append(g.buf, g.tb...)
 	g.buf = append(g.buf, g.tmplBody(hazards)...)
 	g.buf = append(g.buf, g.te...)
-	g.regs = append(g.regs, region{p, len(g.buf), ctx})
+	g.regs = append(g.regs, c09Region{p, len(g.buf), ctx})
 }
 
-const textChars = "abcXYZ 019.,;:-_()&#\n\t=/>\"'!?"
+const c09TextChars = "abcXYZ 019.,;:-_()&#\n\t=/>\"'!?"
 
-func (g *docGen) text() {
+func (g *c09DocGen) text() {
 	if g.lastTx {
 		return
 	}
 	start := len(g.buf)
 	n := 1 + g.r.Intn(6)
 	for i := 0; i < n; i++ {
-		c := g.r.Pick([]byte(textChars))
+		c := g.r.Pick([]byte(c09TextChars))
 		if g.tb != "" && c == g.tb[0] {
 			c = 'q'
 		}
@@ -350,21 +350,21 @@ func (g *docGen) text() {
 		g.buf = append(g.buf, "txt"...)
 	}
 	d := append([]byte{}, g.buf[start:]...)
-	g.exp = append(g.exp, expTok{ty: html.TextToken, data: d, text: d, ctx: "text"})
+	g.exp = append(g.exp, c09ExpTok{ty: html.TextToken, data: d, text: d, ctx: "text"})
 	g.lastTx = true
 }
 
-func (g *docGen) tmplToken() {
+func (g *c09DocGen) tmplToken() {
 	if g.tb == "" || (g.allow != nil && !g.allow["text"]) {
 		return
 	}
 	start := len(g.buf)
 	g.region("text", []string{"<a>", "</p>", "<!--"})
-	g.exp = append(g.exp, expTok{ty: html.TemplateToken, data: append([]byte{}, g.buf[start:]...), ctx: "template"})
+	g.exp = append(g.exp, c09ExpTok{ty: html.TemplateToken, data: append([]byte{}, g.buf[start:]...), ctx: "template"})
 	g.lastTx = false
 }
 
-func (g *docGen) comment() {
+func (g *c09DocGen) comment() {
 	start := len(g.buf)
 	g.buf = append(g.buf, "<!--"...)
 	n := g.r.Intn(5)
@@ -384,13 +384,13 @@ func (g *docGen) comment() {
 	}
 	txt := append([]byte{}, g.buf[start+4:]...)
 	g.buf = append(g.buf, "-->"...)
-	g.exp = append(g.exp, expTok{ty: html.CommentToken, data: append([]byte{}, g.buf[start:]...), text: txt, ctx: "comment"})
+	g.exp = append(g.exp, c09ExpTok{ty: html.CommentToken, data: append([]byte{}, g.buf[start:]...), text: txt, ctx: "comment"})
 	g.lastTx = false
 }
 
 // hasRegionHazard: outside the regions recorded from position `from`, do the plain bytes contain one of the terminators
 // (regions may contain them by design)?
-func (g *docGen) hasRegionHazard(from int, terms []string) bool {
+func (g *c09DocGen) hasRegionHazard(from int, terms []string) bool {
 	plain := g.plainFrom(from)
 	for _, t := range terms {
 		if strings.Contains(plain, t) {
@@ -401,7 +401,7 @@ func (g *docGen) hasRegionHazard(from int, terms []string) bool {
 }
 
 // plainFrom returns buf[from:] with every region replaced by a single 0x01 byte.
-func (g *docGen) plainFrom(from int) string {
+func (g *c09DocGen) plainFrom(from int) string {
 	var sb strings.Builder
 	i := from
 	for _, rg := range g.regs {
@@ -416,7 +416,7 @@ func (g *docGen) plainFrom(from int) string {
 	return sb.String()
 }
 
-func (g *docGen) dropRegionsFrom(from int) {
+func (g *c09DocGen) dropRegionsFrom(from int) {
 	k := len(g.regs)
 	for k > 0 && g.regs[k-1].p >= from {
 		k--
@@ -424,7 +424,7 @@ func (g *docGen) dropRegionsFrom(from int) {
 	g.regs = g.regs[:k]
 }
 
-func (g *docGen) doctype() {
+func (g *c09DocGen) doctype() {
 	start := len(g.buf)
 	g.buf = append(g.buf, "<!"...)
 	g.buf = append(g.buf, g.caseVar("doctype")...)
@@ -433,11 +433,11 @@ func (g *docGen) doctype() {
 		g.buf = append(g.buf, ' ')
 	}
 	g.buf = append(g.buf, '>')
-	g.exp = append(g.exp, expTok{ty: html.DoctypeToken, data: append([]byte{}, g.buf[start:]...), ctx: "doctype"})
+	g.exp = append(g.exp, c09ExpTok{ty: html.DoctypeToken, data: append([]byte{}, g.buf[start:]...), ctx: "doctype"})
 	g.lastTx = false
 }
 
-func (g *docGen) cdata() {
+func (g *c09DocGen) cdata() {
 	start := len(g.buf)
 	g.buf = append(g.buf, "<![CDATA["...)
 	n := g.r.Intn(4)
@@ -452,27 +452,27 @@ func (g *docGen) cdata() {
 	}
 	g.buf = append(g.buf, "]]>"...)
 	d := append([]byte{}, g.buf[start:]...)
-	g.exp = append(g.exp, expTok{ty: html.TextToken, data: d, text: d[9 : len(d)-3], ctx: "cdata"})
+	g.exp = append(g.exp, c09ExpTok{ty: html.TextToken, data: d, text: d[9 : len(d)-3], ctx: "cdata"})
 	g.lastTx = false // a CDATA text token does not merge with following text
 }
 
-func (g *docGen) bogus() {
+func (g *c09DocGen) bogus() {
 	start := len(g.buf)
 	g.buf = append(g.buf, g.r.PickStr([]string{"<?xml version=\"1.0\"?", "<!ELEMENT br EMPTY", "<!x", "<?", "</ a", "</1"})...)
 	g.buf = append(g.buf, '>')
-	g.exp = append(g.exp, expTok{ty: html.CommentToken, data: append([]byte{}, g.buf[start:]...), ctx: "bogus"})
+	g.exp = append(g.exp, c09ExpTok{ty: html.CommentToken, data: append([]byte{}, g.buf[start:]...), ctx: "bogus"})
 	g.lastTx = false
 	if g.tb == "<?" {
 		g.exact = false
 	}
 }
 
-const nameTail = "abcXYZ019-_:."
-const unqChars = "abcXYZ019-_:./#?&;%+*"
+const c09NameTail = "abcXYZ019-_:."
+const c09UnqChars = "abcXYZ019-_:./#?&;%+*"
 
 // attrs appends attributes (each preceded by whitespace) and the matching expectations; returns whether the last
 // attribute value was unquoted (then whitespace is required before "/>").
-func (g *docGen) attrs() (lastUnq bool) {
+func (g *c09DocGen) attrs() (lastUnq bool) {
 	n := g.r.Intn(4)
 	if g.r.Chance(1, 3) {
 		n = 0
@@ -490,7 +490,7 @@ func (g *docGen) attrs() (lastUnq bool) {
 			kn = 0
 		}
 		for j := 0; j < kn; j++ {
-			c := g.r.Pick([]byte(nameTail + "abcdefgABCDEFG"))
+			c := g.r.Pick([]byte(c09NameTail + "abcdefgABCDEFG"))
 			if g.tb != "" && c == g.tb[0] {
 				c = 'k'
 			}
@@ -501,7 +501,7 @@ func (g *docGen) attrs() (lastUnq bool) {
 		}
 		key := append([]byte{}, g.buf[ks:]...)
 		if !keyHasT {
-			key = lowerASCII(key)
+			key = c09LowerASCII(key)
 		}
 		lastUnq = false
 		var val []byte
@@ -530,7 +530,7 @@ func (g *docGen) attrs() (lastUnq bool) {
 				} else {
 					m := 1 + g.r.Intn(4)
 					for j := 0; j < m; j++ {
-						c := g.r.Pick([]byte(unqChars))
+						c := g.r.Pick([]byte(c09UnqChars))
 						if g.tb != "" && c == g.tb[0] {
 							c = 'v'
 						}
@@ -546,7 +546,7 @@ func (g *docGen) attrs() (lastUnq bool) {
 				g.buf = append(g.buf, q)
 				m := g.r.Intn(5)
 				for j := 0; j < m; j++ {
-					c := g.r.Pick([]byte(unqChars + " >=<\"'\n"))
+					c := g.r.Pick([]byte(c09UnqChars + " >=<\"'\n"))
 					if c == q {
 						c = ' '
 					}
@@ -566,27 +566,27 @@ func (g *docGen) attrs() (lastUnq bool) {
 		if val != nil && !lastUnq && g.maybeRegion("attr-after", []string{">", " "}) {
 			// region glued to the end of the attribute
 		}
-		g.exp = append(g.exp, expTok{ty: html.AttributeToken, data: nil, text: key, val: val, chkVal: true, ctx: "attr"})
+		g.exp = append(g.exp, c09ExpTok{ty: html.AttributeToken, data: nil, text: key, val: val, chkVal: true, ctx: "attr"})
 		_ = start
 	}
 	return lastUnq
 }
 
-func (g *docGen) tagName(pool []string) string {
+func (g *c09DocGen) tagName(pool []string) string {
 	return g.caseVar(g.r.PickStr(pool))
 }
 
 // openTag emits "<name attrs>" or "<name attrs/>"; returns whether it was self-closing.
-func (g *docGen) openTag(name string, allowVoid bool) bool {
+func (g *c09DocGen) openTag(name string, allowVoid bool) bool {
 	start := len(g.buf)
 	g.buf = append(g.buf, '<')
 	g.buf = append(g.buf, name...)
-	data := append([]byte{'<'}, lowerASCII([]byte(name))...)
-	g.exp = append(g.exp, expTok{ty: html.StartTagToken, data: data, text: lowerASCII([]byte(name)), ctx: "starttag"})
+	data := append([]byte{'<'}, c09LowerASCII([]byte(name))...)
+	g.exp = append(g.exp, c09ExpTok{ty: html.StartTagToken, data: data, text: c09LowerASCII([]byte(name)), ctx: "starttag"})
 	_ = start
 	if g.maybeRegion("tagname", []string{">", " "}) {
 		// a region glued to the tag name becomes an attribute token of its own
-		g.exp = append(g.exp, expTok{ty: html.AttributeToken, ctx: "tagname-region"})
+		g.exp = append(g.exp, c09ExpTok{ty: html.AttributeToken, ctx: "tagname-region"})
 	}
 	lastUnq := g.attrs()
 	void := allowVoid && g.r.Chance(1, 4)
@@ -597,16 +597,16 @@ func (g *docGen) openTag(name string, allowVoid bool) bool {
 	g.buf = append(g.buf, w...)
 	if void {
 		g.buf = append(g.buf, "/>"...)
-		g.exp = append(g.exp, expTok{ty: html.StartTagVoidToken, data: []byte("/>"), ctx: "void"})
+		g.exp = append(g.exp, c09ExpTok{ty: html.StartTagVoidToken, data: []byte("/>"), ctx: "void"})
 	} else {
 		g.buf = append(g.buf, '>')
-		g.exp = append(g.exp, expTok{ty: html.StartTagCloseToken, data: []byte(">"), ctx: "close"})
+		g.exp = append(g.exp, c09ExpTok{ty: html.StartTagCloseToken, data: []byte(">"), ctx: "close"})
 	}
 	g.lastTx = false
 	return void
 }
 
-func (g *docGen) endTag(name string) {
+func (g *c09DocGen) endTag(name string) {
 	start := len(g.buf)
 	g.buf = append(g.buf, "</"...)
 	g.buf = append(g.buf, name...)
@@ -617,12 +617,12 @@ func (g *docGen) endTag(name string) {
 	}
 	g.buf = append(g.buf, w...)
 	g.buf = append(g.buf, '>')
-	g.exp = append(g.exp, expTok{ty: html.EndTagToken, data: lowerASCII(g.buf[start:]), text: lowerASCII([]byte(name)), ctx: "endtag"})
+	g.exp = append(g.exp, c09ExpTok{ty: html.EndTagToken, data: c09LowerASCII(g.buf[start:]), text: c09LowerASCII([]byte(name)), ctx: "endtag"})
 	g.lastTx = false
 }
 
-func (g *docGen) element() {
-	name := g.tagName(plainNames)
+func (g *c09DocGen) element() {
+	name := g.tagName(c09PlainNames)
 	g.openTag(name, true)
 	if g.r.Bool() {
 		g.text()
@@ -633,7 +633,7 @@ func (g *docGen) element() {
 }
 
 // rawContent builds the content of a raw-text element that does not contain its end tag.
-func (g *docGen) rawContent(name string) {
+func (g *c09DocGen) rawContent(name string) {
 	n := g.r.Intn(6)
 	lname := strings.ToLower(name)
 	for i := 0; i < n; i++ {
@@ -686,7 +686,7 @@ func (g *docGen) rawContent(name string) {
 
 // endsRaw reports whether content contains something the lexer's rules (as described by the property) treat as the
 // matching end tag: used to reject generated content, so it is written independently of the lexer, with strings functions.
-func rawContentClean(content, lname string, script bool) bool {
+func c09RawContentClean(content, lname string, script bool) bool {
 	lc := strings.ToLower(content)
 	i := 0
 	for {
@@ -711,8 +711,8 @@ func rawContentClean(content, lname string, script bool) bool {
 	}
 }
 
-func (g *docGen) rawElement() {
-	name := g.tagName(rawNames)
+func (g *c09DocGen) rawElement() {
+	name := g.tagName(c09RawNames)
 	lname := strings.ToLower(name)
 	void := g.openTag(name, false)
 	_ = void
@@ -720,9 +720,9 @@ func (g *docGen) rawElement() {
 	nregs := len(g.regs)
 	g.rawContent(name)
 	content := g.plainFrom(start)
-	ok := rawContentClean(content, lname, lname == "script")
+	ok := c09RawContentClean(content, lname, lname == "script")
 	if lname == "script" && ok {
-		ok = scriptContentSafe(content)
+		ok = c09ScriptContentSafe(content)
 	}
 	if !ok {
 		g.regs = g.regs[:nregs]
@@ -730,14 +730,14 @@ func (g *docGen) rawElement() {
 	}
 	if len(g.buf) > start {
 		d := append([]byte{}, g.buf[start:]...)
-		g.exp = append(g.exp, expTok{ty: html.TextToken, data: d, text: d, ctx: "rawtext:" + lname})
+		g.exp = append(g.exp, c09ExpTok{ty: html.TextToken, data: d, text: d, ctx: "rawtext:" + lname})
 	}
 	g.endTag(g.caseVar(lname))
 }
 
-// scriptContentSafe: conservative acceptance of generated script content: every "<!--" is closed by "-->" and
+// c09ScriptContentSafe: conservative acceptance of generated script content: every "<!--" is closed by "-->" and
 // between them the <script / </script occurrences (followed by a non-letter) alternate open, close.
-func scriptContentSafe(content string) bool {
+func c09ScriptContentSafe(content string) bool {
 	lc := strings.ToLower(content)
 	i := 0
 	for {
@@ -790,7 +790,7 @@ func scriptContentSafe(content string) bool {
 	}
 }
 
-func (g *docGen) foreign() {
+func (g *c09DocGen) foreign() {
 	name := g.r.PickStr([]string{"svg", "math", "svg", "math", "xml"})
 	start := len(g.buf)
 	g.buf = append(g.buf, '<')
@@ -824,7 +824,7 @@ func (g *docGen) foreign() {
 	} else if name == "xml" {
 		ty = html.XMLToken
 	}
-	e := expTok{ty: ty, data: d, text: []byte(name), ctx: name}
+	e := c09ExpTok{ty: ty, data: d, text: []byte(name), ctx: name}
 	if quote {
 		e.key = "c09-svg:quote"
 	}
@@ -832,18 +832,18 @@ func (g *docGen) foreign() {
 	g.lastTx = false
 }
 
-// genDoc builds a document from the construct grammar.
-func genDoc(r *Rng, tb, te string, nConstructs int, tmplP int) *docGen {
-	return genDocCtx(r, tb, te, nConstructs, tmplP, nil)
+// c09GenDoc builds a document from the construct grammar.
+func c09GenDoc(r *Rng, tb, te string, nConstructs int, tmplP int) *c09DocGen {
+	return c09GenDocCtx(r, tb, te, nConstructs, tmplP, nil)
 }
 
-func genDocCtx(r *Rng, tb, te string, nConstructs int, tmplP int, allow map[string]bool) *docGen {
-	g := &docGen{r: r, tb: tb, te: te, exact: true, tmplP: tmplP, allow: allow}
-	buildDoc(g, nConstructs)
+func c09GenDocCtx(r *Rng, tb, te string, nConstructs int, tmplP int, allow map[string]bool) *c09DocGen {
+	g := &c09DocGen{r: r, tb: tb, te: te, exact: true, tmplP: tmplP, allow: allow}
+	c09BuildDoc(g, nConstructs)
 	return g
 }
 
-func buildDoc(g *docGen, nConstructs int) {
+func c09BuildDoc(g *c09DocGen, nConstructs int) {
 	r, tb := g.r, g.tb
 	for i := 0; i < nConstructs; i++ {
 		switch r.Intn(12) {
@@ -862,7 +862,7 @@ func buildDoc(g *docGen, nConstructs int) {
 		case 5, 6:
 			g.element()
 		case 7:
-			g.endTag(g.tagName(plainNames))
+			g.endTag(g.tagName(c09PlainNames))
 		case 8, 9:
 			g.rawElement()
 		case 10:
@@ -884,18 +884,18 @@ func buildDoc(g *docGen, nConstructs int) {
 		g.buf = append(g.buf, r.PickStr([]string{"", "a</plaintext><b>", "<!-- x", "</PLAINTEXT >"})...)
 		if len(g.buf) > start {
 			d := append([]byte{}, g.buf[start:]...)
-			g.exp = append(g.exp, expTok{ty: html.TextToken, data: d, text: d, ctx: "rawtext:plaintext"})
+			g.exp = append(g.exp, c09ExpTok{ty: html.TextToken, data: d, text: d, ctx: "rawtext:plaintext"})
 		}
 	}
 }
 
-var htmlTmplKinds = []struct {
+var c09TmplKinds = []struct {
 	k      int
 	tb, te string
 }{{0, "", ""}, {1, "{{", "}}"}, {4, "<%", "%>"}, {6, "<?", "?>"}}
 
 // mutate damages a document: flips, deletions, NUL / invalid UTF-8 insertions, truncation, duplication.
-func mutateDoc(r *Rng, d []byte) []byte {
+func c09MutateDoc(r *Rng, d []byte) []byte {
 	d = append([]byte{}, d...)
 	n := 1 + r.Intn(3)
 	for i := 0; i < n && len(d) > 0; i++ {
@@ -925,7 +925,7 @@ func mutateDoc(r *Rng, d []byte) []byte {
 }
 
 // symbol alphabet of the exhaustive enumeration; B/E stand for the delimiter pair (or '{' '}' without templates)
-func htmlSymbols(tb, te string) []string {
+func c09Symbols(tb, te string) []string {
 	b, e := "{", "}"
 	if tb != "" {
 		b, e = tb, te
@@ -933,7 +933,7 @@ func htmlSymbols(tb, te string) []string {
 	return []string{"<", ">", "/", "!", "-", "=", "\"", "'", "a", "script", " ", b, e, "\x00"}
 }
 
-func allSymbolStrings(syms []string, k int, f func([]byte)) {
+func c09AllSymbolStrings(syms []string, k int, f func([]byte)) {
 	var rec func(prefix []byte, depth int)
 	rec = func(prefix []byte, depth int) {
 		f(append([]byte{}, prefix...))
@@ -947,7 +947,7 @@ func allSymbolStrings(syms []string, k int, f func([]byte)) {
 	rec(nil, 0)
 }
 
-var htmlModel = &Model{
+var c09Model = &Model{
 	Name: "html",
 	Gen: func(r *Rng, tier string, emit func(Case)) {
 		// (a) exhaustive small scope
@@ -955,9 +955,9 @@ var htmlModel = &Model{
 		if tier == "thorough" {
 			depth = map[int]int{0: 5, 1: 5, 4: 5, 6: 5}
 		}
-		for _, tk := range htmlTmplKinds {
-			allSymbolStrings(htmlSymbols(tk.tb, tk.te), depth[tk.k], func(d []byte) {
-				emit(htmlCase(tk.k, d, 2, ""))
+		for _, tk := range c09TmplKinds {
+			c09AllSymbolStrings(c09Symbols(tk.tb, tk.te), depth[tk.k], func(d []byte) {
+				emit(c09Case(tk.k, d, 2, ""))
 			})
 		}
 		// (b) structured documents, (c) malformed
@@ -966,22 +966,22 @@ var htmlModel = &Model{
 			n = 150000
 		}
 		for i := 0; i < n; i++ {
-			tk := htmlTmplKinds[i%len(htmlTmplKinds)]
+			tk := c09TmplKinds[i%len(c09TmplKinds)]
 			k := tk.k
 			if k == 1 {
 				k = 1 + r.Intn(3)
 			} else if k == 4 {
 				k = 4 + r.Intn(2)
 			}
-			g := genDoc(r, tk.tb, tk.te, 1+r.Intn(5), 40)
+			g := c09GenDoc(r, tk.tb, tk.te, 1+r.Intn(5), 40)
 			d := g.buf
 			if i%3 == 2 {
-				d = mutateDoc(r, d)
+				d = c09MutateDoc(r, d)
 			}
 			if len(d) > 400 {
 				d = d[:400]
 			}
-			emit(htmlCase(k, d, 1+r.Intn(2), ""))
+			emit(c09Case(k, d, 1+r.Intn(2), ""))
 		}
 		// (d) custom delimiter pairs (the theorems quantify over all NUL-free pairs)
 		m := 1500
@@ -993,13 +993,13 @@ var htmlModel = &Model{
 			cu := customs[i%len(customs)]
 			var d []byte
 			if i%2 == 0 {
-				g := genDoc(r, cu[0], cu[1]+"", 1+r.Intn(3), 40)
+				g := c09GenDoc(r, cu[0], cu[1]+"", 1+r.Intn(3), 40)
 				if cu[1] == "" {
-					g = genDoc(r, "", "", 1+r.Intn(3), 0)
+					g = c09GenDoc(r, "", "", 1+r.Intn(3), 0)
 				}
 				d = g.buf
 			} else {
-				syms := htmlSymbols(cu[0], cu[1])
+				syms := c09Symbols(cu[0], cu[1])
 				for j := r.Intn(8); j > 0; j-- {
 					d = append(d, r.PickStr(syms)...)
 				}
@@ -1007,10 +1007,10 @@ var htmlModel = &Model{
 			if len(d) > 300 {
 				d = d[:300]
 			}
-			emit(htmlCaseCustom([]byte(cu[0]), []byte(cu[1]), d, 2))
+			emit(c09CaseCustom([]byte(cu[0]), []byte(cu[1]), d, 2))
 		}
 	},
-	Impl: htmlImpl,
+	Impl: c09Impl,
 	Shrink: func(c Case) []Case {
 		a := c.Args
 		dv, rest := takeList(a[2:])
@@ -1056,7 +1056,7 @@ var htmlModel = &Model{
 
 // ---- oracles: the property text checked directly on the implementation -------------------------------
 
-type obsTok struct {
+type c09ObsTok struct {
 	ty       html.TokenType
 	off, end int // position of data in the input (-1: nil/empty)
 	data     []byte
@@ -1069,7 +1069,7 @@ type obsTok struct {
 	err      error
 }
 
-func sliceOff(base, s []byte) int {
+func c09SliceOff(base, s []byte) int {
 	if len(s) == 0 || len(base) == 0 {
 		return -1
 	}
@@ -1080,16 +1080,16 @@ func sliceOff(base, s []byte) int {
 	return -2
 }
 
-// lexAll drives the real lexer: until the first ErrorToken, then `extra` more calls. Returns nil on a panic.
-func lexAll(d []byte, tmpl *[2]string, extra int) (toks []obsTok, panicked interface{}) {
-	in, l := htmlNewLexer(d, tmpl)
+// c09LexAll drives the real lexer: until the first ErrorToken, then `extra` more calls. Returns nil on a panic.
+func c09LexAll(d []byte, tmpl *[2]string, extra int) (toks []c09ObsTok, panicked interface{}) {
+	in, l := c09NewLexer(d, tmpl)
 	base := in.Bytes()
 	panicked = catch(func() {
 		seenErr := false
 		for calls := 0; calls < len(d)+3+extra; calls++ {
 			tt, data := l.Next()
-			t := obsTok{ty: tt, off: sliceOff(base, data), data: append([]byte{}, data...), text: append([]byte{}, l.Text()...), textOff: sliceOff(base, l.Text()),
-				val: append([]byte{}, l.AttrVal()...), valOff: sliceOff(base, l.AttrVal()), has: l.HasTemplate(), offset: in.Offset(), err: l.Err()}
+			t := c09ObsTok{ty: tt, off: c09SliceOff(base, data), data: append([]byte{}, data...), text: append([]byte{}, l.Text()...), textOff: c09SliceOff(base, l.Text()),
+				val: append([]byte{}, l.AttrVal()...), valOff: c09SliceOff(base, l.AttrVal()), has: l.HasTemplate(), offset: in.Offset(), err: l.Err()}
 			t.end = t.off + len(data)
 			toks = append(toks, t)
 			if tt == html.ErrorToken {
@@ -1106,15 +1106,15 @@ func lexAll(d []byte, tmpl *[2]string, extra int) (toks []obsTok, panicked inter
 	return
 }
 
-func isWS(c byte) bool { return c == ' ' || c == '\t' || c == '\n' || c == '\r' || c == '\f' }
+func c09IsWS(c byte) bool { return c == ' ' || c == '\t' || c == '\n' || c == '\r' || c == '\f' }
 
-// checkInvariants: C01/C02 clauses and attribute bracketing on an arbitrary input.
-func checkInvariants(rep *Report, kind string, d []byte, tmpl *[2]string) {
+// c09CheckInvariants: C01/C02 clauses and attribute bracketing on an arbitrary input.
+func c09CheckInvariants(rep *Report, kind string, d []byte, tmpl *[2]string) {
 	key := fmt.Sprintf("%s:%x", kind, d)
 	viol := func(k, msg string) {
 		rep.Violate(k, fmt.Sprintf("%s on %q (delims %v)", msg, d, tmpl), map[string]interface{}{"input": hx(d), "delims": fmt.Sprint(tmpl)})
 	}
-	toks, p := lexAll(d, tmpl, 2)
+	toks, p := c09LexAll(d, tmpl, 2)
 	if p != nil {
 		viol("c09-panic:"+key, fmt.Sprintf("panic %v", p))
 		return
@@ -1139,7 +1139,7 @@ func checkInvariants(rep *Report, kind string, d []byte, tmpl *[2]string) {
 			viol("c09-tiling:offset:"+key, fmt.Sprintf("token %d ends at %d but Offset() is %d", i, t.end, t.offset))
 		}
 		for j := pos; j < t.off; j++ {
-			if !isWS(d[j]) || (t.ty != html.StartTagCloseToken && t.ty != html.StartTagVoidToken) {
+			if !c09IsWS(d[j]) || (t.ty != html.StartTagCloseToken && t.ty != html.StartTagVoidToken) {
 				viol("c09-tiling:gap:"+key, fmt.Sprintf("byte %d (%q) before token %d (%v) is not covered", j, d[j], i, t.ty))
 				return
 			}
@@ -1154,7 +1154,7 @@ func checkInvariants(rep *Report, kind string, d []byte, tmpl *[2]string) {
 		case html.EndTagToken:
 			nameLo = t.off + 2
 			nameHi = nameLo
-			for nameHi < t.end && !isWS(d[nameHi]) && d[nameHi] != '>' && d[nameHi] != '/' {
+			for nameHi < t.end && !c09IsWS(d[nameHi]) && d[nameHi] != '>' && d[nameHi] != '/' {
 				nameHi++
 			}
 		}
@@ -1202,7 +1202,7 @@ func checkInvariants(rep *Report, kind string, d []byte, tmpl *[2]string) {
 	}
 	if e.err == io.EOF {
 		for j := pos; j < len(d); j++ {
-			if !isWS(d[j]) || !inTag {
+			if !c09IsWS(d[j]) || !inTag {
 				viol("c09-tiling:tail:"+key, fmt.Sprintf("byte %d (%q) is not covered by any token before the end-of-input report", j, d[j]))
 				break
 			}
@@ -1222,10 +1222,10 @@ func checkInvariants(rep *Report, kind string, d []byte, tmpl *[2]string) {
 	rep.Eval(key, len(toks) > 2, kind)
 }
 
-// checkRawText: after the start tag of a raw-text element has been closed, the content is one Text token that
+// c09CheckRawText: after the start tag of a raw-text element has been closed, the content is one Text token that
 // ends at end of input or right before an end tag of that very element.
-func checkRawText(rep *Report, d []byte, tmpl *[2]string) {
-	toks, p := lexAll(d, tmpl, 0)
+func c09CheckRawText(rep *Report, d []byte, tmpl *[2]string) {
+	toks, p := c09LexAll(d, tmpl, 0)
 	if p != nil {
 		return
 	}
@@ -1277,7 +1277,7 @@ func checkRawText(rep *Report, d []byte, tmpl *[2]string) {
 	}
 }
 
-func tmplPtr(tb, te string) *[2]string {
+func c09TmplPtr(tb, te string) *[2]string {
 	if tb == "" {
 		return nil
 	}
@@ -1286,37 +1286,37 @@ func tmplPtr(tb, te string) *[2]string {
 
 func c09Invariants(r *Rng, tier string, rep *Report) {
 	// fixed witnesses first
-	checkInvariants(rep, "witness", []byte("</a X=Y>"), nil)
-	checkRawText(rep, []byte("<title>a</title-x>b</title>c"), nil)
+	c09CheckInvariants(rep, "witness", []byte("</a X=Y>"), nil)
+	c09CheckRawText(rep, []byte("<title>a</title-x>b</title>c"), nil)
 	depth := 4
 	n := 20000
 	if tier == "thorough" {
 		depth, n = 5, 600000
 	}
-	for _, tk := range htmlTmplKinds {
+	for _, tk := range c09TmplKinds {
 		dd := depth
 		if tk.k != 0 && tier != "thorough" {
 			dd = 3
 		}
-		allSymbolStrings(htmlSymbols(tk.tb, tk.te), dd, func(d []byte) {
-			checkInvariants(rep, fmt.Sprintf("exh%d", tk.k), d, tmplPtr(tk.tb, tk.te))
+		c09AllSymbolStrings(c09Symbols(tk.tb, tk.te), dd, func(d []byte) {
+			c09CheckInvariants(rep, fmt.Sprintf("exh%d", tk.k), d, c09TmplPtr(tk.tb, tk.te))
 		})
 	}
 	for i := 0; i < n; i++ {
-		tk := htmlTmplKinds[i%len(htmlTmplKinds)]
-		g := genDoc(r, tk.tb, tk.te, 1+r.Intn(6), 30)
+		tk := c09TmplKinds[i%len(c09TmplKinds)]
+		g := c09GenDoc(r, tk.tb, tk.te, 1+r.Intn(6), 30)
 		d := g.buf
 		if i%2 == 1 {
-			d = mutateDoc(r, d)
+			d = c09MutateDoc(r, d)
 		}
-		checkInvariants(rep, fmt.Sprintf("doc%d", tk.k), d, tmplPtr(tk.tb, tk.te))
-		checkRawText(rep, d, tmplPtr(tk.tb, tk.te))
+		c09CheckInvariants(rep, fmt.Sprintf("doc%d", tk.k), d, c09TmplPtr(tk.tb, tk.te))
+		c09CheckRawText(rep, d, c09TmplPtr(tk.tb, tk.te))
 	}
 }
 
-// compareExp checks the tokens of d against the promised ones; reports the first difference.
-func compareExp(rep *Report, d []byte, tb, te string, exp []expTok) {
-	toks, p := lexAll(d, tmplPtr(tb, te), 0)
+// c09CompareExp checks the tokens of d against the promised ones; reports the first difference.
+func c09CompareExp(rep *Report, d []byte, tb, te string, exp []c09ExpTok) {
+	toks, p := c09LexAll(d, c09TmplPtr(tb, te), 0)
 	key := fmt.Sprintf("%s:%x", tb, d)
 	viol := func(k, msg string) {
 		rep.Violate(k, fmt.Sprintf("%s on %q (delims %q %q)", msg, d, tb, te), map[string]interface{}{"input": hx(d), "tb": tb, "te": te})
@@ -1366,22 +1366,22 @@ func c09Constructs(r *Rng, tier string, rep *Report) {
 		n = 1000000
 	}
 	// fixed witnesses found while reading shiftXML / shiftRawText
-	compareExp(rep, []byte("<svg><text>5\" pipe</text></svg><p>"), "", "", []expTok{
+	c09CompareExp(rep, []byte("<svg><text>5\" pipe</text></svg><p>"), "", "", []c09ExpTok{
 		{ty: html.SVGToken, data: []byte("<svg><text>5\" pipe</text></svg>"), ctx: "svg", key: "c09-svg:quote"},
 		{ty: html.StartTagToken, data: []byte("<p"), ctx: "starttag"}, {ty: html.StartTagCloseToken, ctx: "close"}})
-	compareExp(rep, []byte("<title>a</title-x>b</title>"), "", "", []expTok{
+	c09CompareExp(rep, []byte("<title>a</title-x>b</title>"), "", "", []c09ExpTok{
 		{ty: html.StartTagToken, data: []byte("<title"), ctx: "starttag"}, {ty: html.StartTagCloseToken, ctx: "close"},
 		{ty: html.TextToken, data: []byte("a</title-x>b"), ctx: "rawtext:title", key: "c09-rawtext:endtag-prefix"},
 		{ty: html.EndTagToken, data: []byte("</title>"), ctx: "endtag"}})
 	for i := 0; i < n; i++ {
-		tk := htmlTmplKinds[i%len(htmlTmplKinds)]
+		tk := c09TmplKinds[i%len(c09TmplKinds)]
 		// regions only as tokens of their own in text: the other contexts are the business of c09Templates
-		g := &docGen{r: r, tb: tk.tb, te: tk.te, exact: true, tmplP: 0, quoteInForeign: i%8 == 7}
-		buildDoc(g, 1+r.Intn(6))
+		g := &c09DocGen{r: r, tb: tk.tb, te: tk.te, exact: true, tmplP: 0, quoteInForeign: i%8 == 7}
+		c09BuildDoc(g, 1+r.Intn(6))
 		if !g.exact {
 			continue
 		}
-		compareExp(rep, g.buf, tk.tb, tk.te, g.exp)
+		c09CompareExp(rep, g.buf, tk.tb, tk.te, g.exp)
 		rep.Eval(fmt.Sprintf("k%d:%x", tk.k, g.buf), len(g.exp) >= 3, fmt.Sprintf("k%d", tk.k))
 	}
 }
@@ -1405,8 +1405,8 @@ func c09Templates(r *Rng, tier string, rep *Report) {
 		{"<a {{ \">\" }}b=c>", "{{", "}}", "attrname"}, {"<a b={{ \">\" }}{{x}}>", "{{", "}}", "attrval-start"}, {"<a b=\"x{{ '\"' }}\">", "{{", "}}", "attrval-quoted"},
 		{"<a b='c'{{ \">\" }}>", "{{", "}}", "attr-after"}, {"<a <% \">\" %>b=<? x ?>>", "<%", "%>", "attrname"},
 	}
-	check := func(d []byte, tb, te string, regs []region) {
-		toks, p := lexAll(d, tmplPtr(tb, te), 0)
+	check := func(d []byte, tb, te string, regs []c09Region) {
+		toks, p := c09LexAll(d, c09TmplPtr(tb, te), 0)
 		if p != nil {
 			rep.Violate(fmt.Sprintf("c09-panic:%x", d), fmt.Sprintf("panic %v on %q", p, d), map[string]interface{}{"input": hx(d)})
 			return
@@ -1442,11 +1442,11 @@ func c09Templates(r *Rng, tier string, rep *Report) {
 	for _, f := range fixed {
 		d := []byte(f.doc)
 		p := bytes.Index(d, []byte(f.tb))
-		q := p + len(f.tb) + tmplEnd(f.doc[p+len(f.tb):], f.te)
-		regs := []region{{p, q, f.ctx}}
+		q := p + len(f.tb) + c09TmplEnd(f.doc[p+len(f.tb):], f.te)
+		regs := []c09Region{{p, q, f.ctx}}
 		// a second region directly behind the first (attrval-start witness)
 		if q < len(d) && bytes.HasPrefix(d[q:], []byte(f.tb)) {
-			regs = append(regs, region{q, q + len(f.tb) + tmplEnd(f.doc[q+len(f.tb):], f.te), f.ctx})
+			regs = append(regs, c09Region{q, q + len(f.tb) + c09TmplEnd(f.doc[q+len(f.tb):], f.te), f.ctx})
 		}
 		check(d, f.tb, f.te, regs)
 		rep.Eval("fixed:"+f.doc, true, "fixed")
@@ -1458,13 +1458,13 @@ func c09Templates(r *Rng, tier string, rep *Report) {
 		{"text"}, {"tagname"}, {"attrname"}, {"attrval-start"}, {"attrval-quoted"}, {"attr-after"},
 	}
 	for i := 0; i < n; i++ {
-		tk := htmlTmplKinds[1+i%(len(htmlTmplKinds)-1)]
+		tk := c09TmplKinds[1+i%(len(c09TmplKinds)-1)]
 		cs := ctxSets[(i/3)%len(ctxSets)]
 		allow := map[string]bool{}
 		for _, c := range cs {
 			allow[c] = true
 		}
-		g := genDocCtx(r, tk.tb, tk.te, 1+r.Intn(4), 45, allow)
+		g := c09GenDocCtx(r, tk.tb, tk.te, 1+r.Intn(4), 45, allow)
 		// regions are exactly the recorded ones only if the rest of the document contains no delimiter: verify
 		plain := g.plainFrom(0)
 		if strings.Contains(plain, tk.tb) {
@@ -1484,7 +1484,7 @@ func c09Templates(r *Rng, tier string, rep *Report) {
 
 func init() {
 	props["C09"] = &PropSpec{
-		Models:  []*Model{htmlModel},
+		Models:  []*Model{c09Model},
 		Oracles: []*Oracle{{Name: "c09-invariants", Run: c09Invariants}, {Name: "c09-constructs", Run: c09Constructs}, {Name: "c09-templates", Run: c09Templates}},
 	}
 }
